@@ -7,7 +7,7 @@ props="${@:-C04 C07 C10 C11 C19}"
 bad=0
 for tier in quick thorough; do
   n=$nq; [ $tier = thorough ] && n=$nt
-  for seed in $(seq 1 $n); do
+  for seed in $(seq ${VERIF_SEED_FROM:-1} $n); do
     for p in $props; do
       t0=$(date +%s)
       out=$(cd "$VDIR" && VERIF_SEED=$seed ./run.sh $p $tier 2>&1); rc=$?
